@@ -184,6 +184,8 @@ func handle(req J) J {
 		return opAlias(req)
 	case "decode":
 		return opDecode(req)
+	case "emitted":
+		return opEmitted(req)
 	case "decodeNode":
 		y := []byte(str(req, "yaml"))
 		switch str(req, "kind") {
